@@ -85,3 +85,57 @@ def roundtrip_cases(case: Dict[str, Any]):
             r.update({"H": st["H"], "root": case["root"], "stage": st["name"], "path": path})
             out.append(r)
     return out
+
+
+def _drawing(src_fn: Any, offsets: Any = None) -> Dict[str, Any]:
+    from . import dot
+
+    out: Dict[str, Any] = {"exc": "", "nodes": {}, "clusters": {}, "solid": [], "dashed": [], "parseexc": ""}
+    try:
+        src = src_fn()
+    except Exception as e:
+        out["exc"] = exc_sig(e)
+        return out
+    try:
+        d = dot.parse(src)
+    except Exception as e:
+        out["parseexc"] = repr(e)
+        return out
+    import re
+
+    for n, r in d["nodes"].items():
+        f = dot.label_facts(r["label"])
+        offs = [int(m.group(1)) for ln in f["lines"] for m in [re.match(r"^(\d+): [A-Z_0-9]+$", ln)] if m]
+        out["nodes"][n] = {"cluster": r["cluster"], "lname": f["name"], "asg": f["asg"], "var": f["var"], "tab": f["tab"],
+                           "offs": offs if offsets is not None else [], "expoffs": (offsets.get(n, []) if offsets is not None else [])}
+    for n, r in d["clusters"].items():
+        out["clusters"][n] = {"parent": r["parent"], "lname": dot.label_facts(r["label"])["name"]}
+    out["solid"] = [[a, b] for a, b, st in d["edges"] if st != "dashed"]
+    out["dashed"] = [[a, b] for a, b, st in d["edges"] if st == "dashed"]
+    return out
+
+
+def render(stage: str, scfg: Any, inp: Any) -> Dict[str, Any]:
+    """C17: the DOT source of SCFGRenderer (and of ByteFlowRenderer for bytecode graphs), parsed."""
+    import logging
+
+    logging.disable(logging.CRITICAL)
+    from numba_scfg.rendering.rendering import ByteFlowRenderer, SCFGRenderer
+
+    out = {"scfg": _drawing(lambda: SCFGRenderer(scfg).render_scfg().source)}
+    if inp.get("dom") == "B":
+        import dis
+
+        from numba_scfg.core.datastructures.basic_block import PythonBytecodeBlock
+        from numba_scfg.core.datastructures.byte_flow import ByteFlow
+
+        from . import corpus
+
+        bc = dis.Bytecode(corpus.resolve(inp["fn"]))
+        alloffs = [i.offset for i in bc]
+        expect = {}
+        for name, b in scfg:
+            if isinstance(b, PythonBytecodeBlock):
+                expect[str(name)] = [o for o in alloffs if b.begin <= o < b.end]
+        out["bf"] = _drawing(lambda: ByteFlowRenderer().render_byteflow(ByteFlow(bc=bc, scfg=scfg)).source, expect)
+    return out
